@@ -44,7 +44,8 @@ Family (stated; all members enumerated, VERIF_SEED only permutes the order)
          thorough: double states, uncrossed x context <= 1, (+crossed) x no context, none; single
          states, uncrossed x <= 1 x chain
     k=3: quick: single states, uncrossed (70) x no context x none;
-         thorough: single states (+crossed, 118) x context <= 1 x none; uncrossed x no context x chain
+         thorough: single states, uncrossed x context <= 1, (+crossed) x no context, none; uncrossed
+         x no context x chain
   every script is linked by wild a second time with -soname=libt.so.1 (tables' consistency only).
   verneed family: clients referencing a subset of {f, f@V1, g, g@V1, h, k} from libv.so (f@V1,
   f@@V2, g@@V1, h unversioned) and libw.so (k@@W1), both built by GNU ld, x output {pie, shared,
@@ -209,7 +210,7 @@ def dup_family(thorough):
     if thorough:
         add(("dup",), 2, True, 1, ("none",), True, crossed_depth=0)
         add(("dup",), 2, False, 1, ("chain",), False)
-        add(("dup",), 3, False, 1, ("none",), True)
+        add(("dup",), 3, False, 1, ("none",), True, crossed_depth=0)
         add(("dup",), 3, False, 0, ("chain",), False)
     else:
         add(("dup",), 2, False, 1, ("none",), True, crossed_depth=0)
